@@ -308,9 +308,6 @@ Fixpoint run_retry (s : bs) (ops : list op) : list outcome :=
   end.
 
 (* ---- NetstringSocket --------------------------------------------------------------------------------- *)
-(* int(size_prefix) for ASCII digits; anything else is treated as invalid
-   (Python's int() also accepts surrounding whitespace, a sign and '_'
-   separators: the harness never puts those bytes into a size prefix) *)
 Definition digit_val (c : N) : option nat :=
   if N.leb 48 c && N.leb c 57 then Some (N.to_nat c - 48) else None.
 
@@ -323,11 +320,39 @@ Fixpoint int_acc (b : bytes) (acc : nat) : option nat :=
               end
   end.
 
-Definition py_int (b : bytes) : option nat :=
+(* int(size_prefix) for a bytes object, base 10: ASCII white space is stripped
+   from both ends, an optional sign, then digits, optionally grouped by single
+   underscores between digits; anything else raises ValueError (None) *)
+Definition is_ws (c : N) : bool := N.eqb c 32 || (N.leb 9 c && N.leb c 13).
+Fixpoint lstrip_ws (b : bytes) : bytes :=
   match b with
-  | [] => None                        (* int(b'') raises ValueError *)
-  | _ => int_acc b 0
+  | c :: r => if is_ws c then lstrip_ws r else b
+  | [] => []
   end.
+Definition strip_ws (b : bytes) : bytes := rev (lstrip_ws (rev (lstrip_ws b))).
+
+(* need = a digit must come next (at the start and after an underscore) *)
+Fixpoint us_ok (b : bytes) (need : bool) : bool :=
+  match b with
+  | [] => negb need
+  | c :: r => match digit_val c with
+              | Some _ => us_ok r false
+              | None => if N.eqb c 95 && negb need then us_ok r true else false
+              end
+  end.
+
+Definition py_int (b : bytes) : option Z :=
+  let b1 := strip_ws b in
+  let '(neg, b2) := match b1 with
+                    | c :: r => if N.eqb c 43 then (false, r) else if N.eqb c 45 then (true, r) else (false, b1)
+                    | [] => (false, b1)
+                    end in
+  if us_ok b2 true then
+    match int_acc (filter (fun c => negb (N.eqb c 95)) b2) 0 with
+    | Some n => Some (if neg then Z.opp (Z.of_nat n) else Z.of_nat n)
+    | None => None
+    end
+  else None.
 
 (* str(n).encode('ascii'): decimal notation (Lib.C12_Base.dec); trusted builtin *)
 Definition py_str (n : nat) : bytes := dec n.
@@ -359,8 +384,11 @@ Definition read_ns (x : ns) (m : option nat) : outcome * ns :=
       match py_int size_prefix with
       | None => (OExn NetstringInvalidSize, with_bs x s1)
       | Some size =>
-          if Nat.ltb mx size then (OExn NetstringMessageTooLong, with_bs x s1)
+          if Z.ltb (Z.of_nat mx) size then (OExn NetstringMessageTooLong, with_bs x s1)
           else
+            (* a negative size makes recv_size behave as for 0 (total_bytes >= size at once, the whole
+               chunk goes back to the buffer) *)
+            let size := Z.to_nat size in
             (* bytes this call has consumed so far: put back if an exception interrupts it *)
             let unread (s : bs) (consumed : bytes) := set_recv s (consumed ++ rbuf s) (nt s) in
             match recv_size s1 size with
